@@ -1177,6 +1177,34 @@ func instrsWhere(fn *ssa.Function, pred func(ssa.Instruction) bool) []ssa.Instru
 	return out
 }
 
+// instrsInScope: like instrsWhere, but over fn, its closures AND the unexported
+// same-package helpers they call (scopeFuncs) — for rules that inspect the
+// operands of an anchored call, which must not depend on whether the call sits
+// in the anchored function or in a helper split off from it.  Sites in the
+// function itself come first.
+func instrsInScope(fn *ssa.Function, pred func(ssa.Instruction) bool) []ssa.Instruction {
+	out := instrsWhere(fn, pred)
+	own := map[*ssa.Function]bool{}
+	for _, f := range WithAnons(fn) {
+		own[f] = true
+	}
+	var rest []ssa.Instruction
+	for _, f := range scopeFuncs(fn) {
+		if own[f] {
+			continue
+		}
+		for _, b := range f.Blocks {
+			for _, in := range b.Instrs {
+				if pred(in) {
+					rest = append(rest, in)
+				}
+			}
+		}
+	}
+	sort.SliceStable(rest, func(i, j int) bool { return instrPos(rest[i]) < instrPos(rest[j]) })
+	return append(out, rest...)
+}
+
 // isCallTo builds an instruction predicate for calls (call/go/defer) to fs.
 func isCallTo(fs ...*types.Func) func(ssa.Instruction) bool {
 	return func(in ssa.Instruction) bool {
